@@ -393,6 +393,9 @@ def run_detector_selftest(pid):
     finally:
         if os.path.exists(path):
             os.remove(path)
+    # representation stress (tools/stress_facts.py): renamed variables, shifted lines, permuted blocks and locals must not change the verdict
+    sp = subprocess.run([sys.executable, os.path.join(VERIF, "tools", "stress_facts.py"), "--only", pid], stdout=subprocess.PIPE, stderr=subprocess.STDOUT, text=True)
+    stress = {"modes": ["rename", "lines", "blocks", "locals"], "alarms": [l for l in sp.stdout.splitlines() if " ALARM " in l], "exit": sp.returncode}
     muts = [r for r in res if r.get("expect") != "none"]
     ben = [r for r in res if r.get("expect") == "none"]
     return {
@@ -401,6 +404,7 @@ def run_detector_selftest(pid):
         "mutants": len(muts), "caught": sum(r["status"] == "caught" for r in muts), "caught_by_other_rule": sum(r["status"] == "caught-by-other-rule" for r in muts),
         "missed": [r["mutant"] for r in muts if r["status"] == "MISSED"], "skipped": [r["mutant"] for r in muts if r["status"].startswith("skipped")],
         "benign": len(ben), "benign_silent": sum(r["status"] == "silent" for r in ben), "false_alarms": [r["mutant"] for r in ben if r["status"] == "FALSE-ALARM"],
+        "representation_stress": stress,
         "table": [{"mutant": r["mutant"], "rule": r.get("rule"), "status": r["status"], "keys": r.get("keys", [])[:3]} for r in res],
     }
 
